@@ -1,5 +1,251 @@
-//! Fault enumeration for C06 / C18 (filled in below).
-use crate::ctx::Ctx;
-use crate::wire::WireEngine;
+//! Fault enumeration inside a simulation (C06 request direction, C18 response
+//! direction): for one sampled (endpoint, value) every 2-split of the body,
+//! a stream error at every chunk index of a drawn chunking, a clean end of
+//! stream after every byte count, and each single content fault — for the
+//! blocking and the async flavour — all judged by the same oracles.
 
-pub fn run_enum(_e: &WireEngine, _ctx: &Ctx) {}
+use crate::ctx::Ctx;
+use crate::exec::{run_tasks, task, ExecKnobs};
+use crate::faults::{CallPlan, Forced, FK};
+use crate::glue::{ArgVal, DynVal, GenKnobs};
+use crate::glue_gen;
+use crate::ir::{ir, RetKind};
+use crate::runner::guarded;
+use crate::transport::{CatchPanic, Exchange, SimTransport};
+use crate::wire::{base_plan, result_of, setup, CallRec, CallResult, Profile, RunSetup, WireEngine};
+use std::sync::{Arc, Mutex};
+
+fn one_call(ctx: &Ctx, st: &RunSetup, ep: usize, args: &[ArgVal], ret: &dyn DynVal, plan: CallPlan) -> (CallRec, Vec<Exchange>) {
+    // fresh history for this case
+    {
+        let mut core = st.sh.handler.core.lock().unwrap();
+        core.records.clear();
+        core.script.clear();
+    }
+    st.sh.exchanges.lock().unwrap().clear();
+    st.sh.handler.script(ep, ret.clone_box());
+    let tr = SimTransport {
+        sh: st.sh.clone(),
+        call: 0,
+        plan: Arc::new(Mutex::new(plan)),
+    };
+    let mut call = CallRec {
+        ep,
+        args: args.to_vec(),
+        ret: ret.clone_box(),
+        result: CallResult::NotRun,
+        token_debug: None,
+    };
+    if !st.is_async {
+        let r = guarded(|| glue_gen::call_blocking(&tr, ep, &call.args));
+        call.result = result_of(r);
+    } else {
+        let slot: Mutex<Option<CallResult>> = Mutex::new(None);
+        let report = {
+            let slot = &slot;
+            let tr = &tr;
+            let callr = &call;
+            let mut tasks = vec![task(
+                async move {
+                    let r = CatchPanic(Box::pin(glue_gen::call_async(tr, callr.ep, &callr.args))).await;
+                    *slot.lock().unwrap() = Some(result_of(r));
+                },
+                None,
+            )];
+            run_tasks(
+                ctx,
+                &mut tasks,
+                &ExecKnobs {
+                    spurious_polls: false,
+                    max_polls: 1_000_000,
+                },
+            )
+        };
+        if report.stalled {
+            ctx.violation("C04", "liveness", "executor stalled during fault enumeration: a task is Pending with no wake-up and no timer");
+        }
+        call.result = slot.lock().unwrap().take().unwrap_or(CallResult::NotRun);
+    }
+    let exchanges = std::mem::take(&mut *st.sh.exchanges.lock().unwrap());
+    (call, exchanges)
+}
+
+fn judge_case(ctx: &Ctx, st: &RunSetup, call: CallRec, exchanges: Vec<Exchange>, label: &str) {
+    ctx.count("enum.cases");
+    ctx.log(|| {
+        format!(
+            "case {} -> {}",
+            label,
+            match &call.result {
+                CallResult::Ok(v) => format!("Ok({})", v.render()),
+                CallResult::Err(e) => format!("Err(code={} marker={:?})", e.code, e.marker),
+                CallResult::Panic(m) => format!("PANIC {}", m),
+                _ => "-".into(),
+            }
+        )
+    });
+    crate::oracles::evaluate(ctx, &st.knobs, std::slice::from_ref(&call), &exchanges, &st.sh.handler, st.is_async);
+}
+
+pub fn run_enum(e: &WireEngine, ctx: &Ctx) {
+    let irx = ir();
+    let mut knobs = ctx.with_tape(GenKnobs::draw);
+    // keep bodies small: the enumeration is ~3x their length, twice
+    knobs.doc_budget = ctx.with_tape(|t| *t.pick(&[2i64, 4, 8, 12]));
+    knobs.max_str = ctx.with_tape(|t| *t.pick(&[2u64, 6, 12]));
+    let request_side = e.profile == Profile::C06;
+    let cands: Vec<usize> = irx
+        .eps
+        .iter()
+        .filter(|m| {
+            if request_side {
+                m.body_arg().map(|b| !irx.is_binary(&b.ty)).unwrap_or(false)
+            } else {
+                true
+            }
+        })
+        .map(|m| m.idx)
+        .collect();
+    let ep = cands[ctx.draw(cands.len() as u64) as usize];
+    let meta = &irx.eps[ep];
+    ctx.sig(&meta.name);
+    let args = ctx.with_tape(|t| glue_gen::gen_args(ep, t, &knobs));
+    let ret = ctx.with_tape(|t| glue_gen::gen_ret(ep, t, &knobs));
+    ctx.log(|| {
+        format!(
+            "enumerate {}.{} args=[{}] scripted_return={}",
+            meta.service,
+            meta.name,
+            args.iter().map(|a| format!("{}={}", a.name, a.val.render())).collect::<Vec<_>>().join(", "),
+            ret.render()
+        )
+    });
+    let smile = meta
+        .body_arg()
+        .filter(|b| !irx.is_binary(&b.ty))
+        .and_then(|b| args.iter().find(|a| a.name == b.name))
+        .and_then(|a| glue_gen::val_to_smile((ep, true), &*a.val));
+    // a drawn multi-way chunking shared by both flavours
+    let cut_seeds: Vec<u64> = (0..ctx.draw(4) + 1).map(|_| ctx.draw(1 << 16)).collect();
+    let timing = ctx.chance(1, 2);
+    for is_async in [false, true] {
+        let st = setup(ctx, is_async, knobs.clone());
+        ctx.sig(if is_async { "async" } else { "blocking" });
+        let mk_plan = |forced: Option<Forced>| -> CallPlan {
+            let mut p = base_plan(ctx, &st.knobs);
+            p.alt_smile_body = smile.clone();
+            p.max_faults = 4;
+            if request_side {
+                p.forced_req = forced;
+            } else {
+                p.forced_resp = forced;
+            }
+            if timing && is_async {
+                let k = crate::body::ChunkKnobs {
+                    style: 0,
+                    empty_chunks: false,
+                    timing: true,
+                };
+                if request_side {
+                    p.chunk_resp = Some(k);
+                } else {
+                    p.chunk_req = Some(k);
+                }
+            }
+            p
+        };
+        // probe: the undamaged exchange
+        let (call, exs) = one_call(ctx, &st, ep, &args, &*ret, mk_plan(None));
+        let len = exs
+            .first()
+            .map(|x| {
+                if request_side {
+                    x.sent.body.as_ref().map(|b| b.len()).unwrap_or(0)
+                } else {
+                    x.resp_wire.as_ref().map(|w| w.body.len()).unwrap_or(0)
+                }
+            })
+            .unwrap_or(0);
+        let streaming = exs
+            .first()
+            .map(|x| if request_side { x.sent.streaming } else { matches!(meta.ret_kind(), RetKind::Binary | RetKind::OptBinary) })
+            .unwrap_or(false);
+        let probe_ok = matches!(call.result, CallResult::Ok(_));
+        judge_case(ctx, &st, call, exs, "probe");
+        if !probe_ok {
+            // e.g. a header value HTTP cannot carry, or a body above the endpoint's limit
+            ctx.count("enum.probe_not_ok");
+            continue;
+        }
+        if len > 600 {
+            ctx.count("enum.body_too_long_skipped");
+            continue;
+        }
+        ctx.mark_nontrivial();
+        ctx.sig(match len {
+            0 => "len0",
+            1..=8 => "len1-8",
+            9..=64 => "len9-64",
+            _ => "len65+",
+        });
+        // 1. every 2-split (cut at every byte offset, both ends included: empty chunks)
+        for k in 0..=len {
+            let (call, exs) = one_call(ctx, &st, ep, &args, &*ret, mk_plan(Some(Forced::Cuts(vec![k]))));
+            judge_case(ctx, &st, call, exs, &format!("split@{}", k));
+            ctx.count("enum.two_split");
+        }
+        // 2. a stream error at every chunk index of a drawn chunking (and after the last byte)
+        let mut cuts: Vec<usize> = cut_seeds.iter().map(|s| (*s as usize) % (len + 1)).collect();
+        cuts.sort();
+        for j in 0..=cuts.len() + 1 {
+            let (call, exs) = one_call(ctx, &st, ep, &args, &*ret, mk_plan(Some(Forced::FailAt(cuts.clone(), j))));
+            judge_case(ctx, &st, call, exs, &format!("fail@{} of {:?}", j, cuts));
+            ctx.count("enum.stream_error_position");
+        }
+        // 3. a clean end of stream after every byte count
+        for k in 0..len {
+            let (call, exs) = one_call(ctx, &st, ep, &args, &*ret, mk_plan(Some(Forced::TruncateAt(k))));
+            judge_case(ctx, &st, call, exs, &format!("truncate@{}", k));
+            ctx.count("enum.truncate_position");
+        }
+        // 4. each single content fault once
+        let kinds: &[FK] = if request_side {
+            &[
+                FK::Pretty,
+                FK::SmileReencode,
+                FK::CtParams,
+                FK::LeadingWs,
+                FK::TrailingWs,
+                FK::TrailingGarbage,
+                FK::TrailingSecondDoc,
+                FK::CtDrop,
+                FK::CtUnregistered,
+                FK::CtLabelSwap,
+                FK::UnknownField,
+                FK::Oversize,
+                FK::ByteFlip,
+            ]
+        } else {
+            &[
+                FK::Pretty,
+                FK::LeadingWs,
+                FK::TrailingWs,
+                FK::TrailingGarbage,
+                FK::TrailingSecondDoc,
+                FK::CtDrop,
+                FK::CtUnregistered,
+                FK::CtParams,
+                FK::StatusFlip,
+                FK::UnknownField,
+                FK::ByteFlip,
+            ]
+        };
+        if !streaming || !request_side {
+            for k in kinds {
+                let (call, exs) = one_call(ctx, &st, ep, &args, &*ret, mk_plan(Some(Forced::Kind(*k))));
+                judge_case(ctx, &st, call, exs, &format!("kind {}", k.name()));
+                ctx.count("enum.single_content_fault");
+            }
+        }
+    }
+}
